@@ -105,6 +105,7 @@ type vfObj struct {
 	inflight        atomic.Int32
 	maxInflight     atomic.Int32
 	inflightAtClose atomic.Int32 // in-flight ReadAt/WriteAt observed when Close was invoked (max)
+	statCalls       atomic.Int32
 	closedBeforeTE  atomic.Int32 // TransferError delivered after Close
 	closed          atomic.Bool
 	ctxDoneAtClose  atomic.Bool
@@ -383,6 +384,13 @@ func (o *vfObj) Close() error {
 		return o.st.CloseErr(o.path)
 	}
 	return nil
+}
+
+// Stat: the handler objects have a method set of their own (like an *os.File handed out by a handler); nobody is
+// supposed to ask them about attributes: those come from the FileLister.
+func (o *vfObj) Stat() (os.FileInfo, error) {
+	o.statCalls.Add(1)
+	return vfStoreInfo{"object-not-the-lister", &vfFile{data: make([]byte, 424242), mode: 0o400}}, nil
 }
 
 func (o *vfObj) TransferError(err error) {
